@@ -4,7 +4,7 @@
 From Coq Require Import Extraction ExtrOcamlBasic.
 From Coq Require Import ZArith List.
 From GB Require Import Num NumB Event Intersect Cmp Heap Outcome Divide Fields FillQueue Subdivide Connect BoolOp.
-From GB Require Splay SplayOps.
+From GB Require Splay SplayOps Slab Scene Convert.
 
 Extraction Blacklist List String Int.
 
@@ -23,4 +23,5 @@ Separate Extraction
   Connect.connect_edges
   BoolOp.boolean BoolOp.boolean_operation
   Splay.empty SplayOps.run SplayOps.step Splay.inorder Splay.root Splay.height
+  Convert.sf2q Convert.sfpt Scene.check_scene Scene.cert01 Scene.cert02_reading Slab.mkQpt
   Z.of_nat Z.to_nat N.of_nat N.to_nat Pos.of_nat Pos.to_nat.
